@@ -148,6 +148,30 @@ def run(res):
                        "history": [e for h, _, e in hists if h == hid][0], "impl_trace": {"clients": r["clients"], "final": r["final"]},
                        "predicate": {"name": "lin_counter (Model/Lin.v)", "verdict": "the returned values are not those of any order of the calls consistent with real time"},
                        "seed": res.seed})
+    # Incr on a counter that cannot be read with the read quorum (a backup owner unreachable, or the owner without a copy):
+    # it must be refused, never restarted from zero (the quorum harness and the layouts of C05)
+    import c05
+    import qlib
+    import random
+    qscs = []
+    for j, (r_, w_, rq_) in enumerate([(2, 1, 2), (3, 1, 2), (3, 2, 3)] if res.tier == "thorough" else [(2, 1, 2), (3, 1, 2)]):
+        q = c05.rw_scenario(9000 + j, r_, w_, rq_, random.Random(res.seed * 100 + j), res.tier)
+        q["steps"] = [st for st in q["steps"] if st["op"] == "incr"]
+        qscs.append(q)
+    qres = qlib.run_harness("quorum", [qlib.strip(q) for q in qscs], jobs=3)
+    nq = 0
+    for q in qscs:
+        ob = qres[q["id"]]
+        for i, st in enumerate(q["steps"]):
+            if i >= len(ob.get("steps", [])):
+                break
+            nq += 1
+            m = c05.check_incr(q, st, ob["steps"][i])
+            if m:
+                res.violation({"kind": "impl-violates-property", "part": "quorum-incr", "scenario": dict(qlib.strip(q), steps=[st]),
+                               "impl_trace": ob["steps"][i], "predicate": {"name": "Incr under read/write quorums", "verdict": m}, "seed": res.seed})
+                break
+    res.coverage["incr_under_quorum_steps"] = nq
     if not proofs_ok and not res.violations:
         broken = [o for o in res.obligations if not o["ok"]]
         res.violation({"kind": "obligation-broken", "failed": [o["theorem"] for o in broken],
@@ -167,6 +191,21 @@ def run(res):
 
 def replay(res, path):
     obj = json.load(open(path))
+    if obj.get("part") == "quorum-incr":
+        import c05
+        import qlib
+        ok, out = vlib.harness_build()
+        if not ok:
+            raise vlib.CheckError(out)
+        q = dict(obj["scenario"], id=0)
+        ob = qlib.run_harness("quorum", [q], jobs=1)[0]
+        for st, o in zip(q["steps"], ob.get("steps", [])):
+            m = c05.check_incr(q, st, o)
+            if m:
+                print(m)
+                print("VIOLATION property=%s replay=%s" % (res.pid, path))
+                return 1
+        return 0
     sc = obj.get("scenario")
     if not sc:
         print("replay names a broken obligation: %s" % obj.get("failed"))
